@@ -63,6 +63,13 @@ function alphabet(name) {
 
 // families: {name, alpha, lens:[max ops per goroutine], caps:[[cap per channel]...], flags}
 function families(tier) {
+  // debug knob: VERIF_C03_FAMILIES=T8,F9 restricts a run to the named families
+  const only = process.env.VERIF_C03_FAMILIES;
+  const all = allFamilies(tier);
+  return only ? all.filter(f => only.split(',').includes(f.name)) : all;
+}
+
+function allFamilies(tier) {
   const q = [
     { name: 'F1', alpha: 'one-core', lens: [2, 2], caps: [[0], [1], [2]] },
     { name: 'F2', alpha: 'one-small', lens: [2, 1, 1], caps: [[0], [1]] },
